@@ -18,6 +18,8 @@ use crate::constant::qlpc::MAX_ORDER as MAX_LPC_ORDER;
 use crate::constant::qlpc::MAX_PRECISION as MAX_LPC_PRECISION;
 use crate::constant::qlpc::MAX_SHIFT as MAX_LPC_SHIFT;
 use crate::constant::qlpc::MIN_SHIFT as MIN_LPC_SHIFT;
+use crate::constant::rice::MAX_PARTITION_ORDER as MAX_RICE_PARTITION_ORDER;
+use crate::constant::rice::MAX_RICE_PARAMETER;
 use crate::constant::MAX_CHANNELS;
 use crate::error::verify_range;
 use crate::error::verify_true;
@@ -153,6 +155,30 @@ impl Verify for Frame {
             sf.verify()
                 .map_err(|e| e.within(&format!("subframe[{ch}]")))?;
         }
+        verify_true!(
+            "subframes.len()",
+            self.header().channel_assignment().channels() == self.subframe_count(),
+            "must match to the channel specification in the header"
+        )?;
+        for (ch, sf) in self.subframes().iter().enumerate() {
+            verify_true!(
+                "subframe[{ch}].block_size",
+                sf.block_size() == self.header().block_size(),
+                "must be identical with the block size in the header"
+            )?;
+            if let Some(bits) = self.header().bits_per_sample() {
+                let expected = bits
+                    + self
+                        .header()
+                        .channel_assignment()
+                        .bits_per_sample_offset(ch);
+                verify_true!(
+                    "subframe[{ch}].bits_per_sample",
+                    sf.bits_per_sample() == expected,
+                    "must be consistent with the sample size in the header"
+                )?;
+            }
+        }
         if let Some(buf) = self.precomputed_bitstream() {
             let mut dest = MemSink::<u8>::with_capacity(self.count_bits());
             self.write(&mut dest).map_err(|_| {
@@ -193,6 +219,16 @@ impl Verify for ChannelAssignment {
 impl Verify for FrameHeader {
     fn verify(&self) -> Result<(), VerifyError> {
         verify_block_size!("block_size", self.block_size())?;
+        verify_range!("block_size", self.block_size(), 1..)?;
+        if self.is_variable_blocking() {
+            verify_range!(
+                "start_sample_number",
+                self.start_sample_number(),
+                ..(1u64 << 36)
+            )?;
+        } else {
+            verify_range!("frame_number", self.frame_number(), ..(1u32 << 31))?;
+        }
 
         self.channel_assignment()
             .verify()
@@ -236,6 +272,11 @@ impl Verify for FixedLpc {
         for (t, v) in self.warm_up().iter().enumerate() {
             verify_sample_range!("warm_up[{t}]", *v, self.bits_per_sample())?;
         }
+        verify_true!(
+            "residual.warmup_length",
+            self.residual().warmup_length() == self.order(),
+            "must be identical with the number of warm-up samples"
+        )?;
         self.residual()
             .verify()
             .map_err(|err| err.within("residual"))
@@ -251,6 +292,17 @@ impl Verify for Lpc {
         for (t, v) in self.warm_up().iter().enumerate() {
             verify_sample_range!("warm_up[{t}]", *v, self.bits_per_sample())?;
         }
+        verify_range!("order", self.order(), 1..)?;
+        verify_true!(
+            "warm_up.len",
+            self.warm_up().len() == self.order(),
+            "must be identical with the LPC order"
+        )?;
+        verify_true!(
+            "residual.warmup_length",
+            self.residual().warmup_length() == self.order(),
+            "must be identical with the LPC order"
+        )?;
         self.residual()
             .verify()
             .map_err(|err| err.within("residual"))
@@ -261,13 +313,30 @@ impl Verify for QuantizedParameters {
     fn verify(&self) -> Result<(), VerifyError> {
         verify_range!("order", self.order(), ..=MAX_LPC_ORDER)?;
         verify_range!("shift", self.shift(), MIN_LPC_SHIFT..=MAX_LPC_SHIFT)?;
-        verify_range!("precision", self.precision(), ..=MAX_LPC_PRECISION)?;
+        verify_range!("precision", self.precision(), 1..=MAX_LPC_PRECISION)?;
+        let coef_max = (1i32 << (self.precision() - 1)) - 1;
+        for (t, c) in self.coefs().iter().enumerate() {
+            verify_range!("coefs[{t}]", i32::from(*c), (-coef_max - 1)..=coef_max)?;
+        }
         Ok(())
     }
 }
 
 impl Verify for Residual {
     fn verify(&self) -> Result<(), VerifyError> {
+        verify_range!(
+            "partition_order",
+            self.partition_order(),
+            ..=MAX_RICE_PARTITION_ORDER
+        )?;
+        verify_true!(
+            "rice_params.len",
+            self.rice_params().len() == 1usize << self.partition_order(),
+            "must be identical with the number of partitions"
+        )?;
+        for (p, rice_p) in self.rice_params().iter().enumerate() {
+            verify_range!("rice_params[{p}]", *rice_p as usize, ..=MAX_RICE_PARAMETER)?;
+        }
         verify_true!(
             "self.quotients",
             self.quotients().len() == self.remainders().len(),
@@ -285,6 +354,14 @@ impl Verify for Residual {
             self.remainders().len() == self.block_size(),
             "must have the same length as the block size"
         )?;
+        let partition_count = 1usize << self.partition_order();
+        verify_true!(
+            "block_size",
+            self.block_size() % partition_count == 0,
+            "must be a multiple of the number of partitions"
+        )?;
+        let partition_len = self.block_size() / partition_count;
+        verify_range!("warmup_length", self.warmup_length(), ..=partition_len)?;
         for t in 0..self.warmup_length() {
             verify_true!(
                 "quotients[{t}]",
@@ -298,8 +375,6 @@ impl Verify for Residual {
             )?;
         }
 
-        let partition_count = 1 << self.partition_order();
-        let partition_len = self.block_size() / partition_count;
         for t in 0..self.block_size() {
             let rice_p = self.rice_params()[t / partition_len];
             verify_range!("remainders[{t}]", self.remainders()[t], ..(1 << rice_p))?;
